@@ -460,10 +460,8 @@ package action
 //@   ensures [failure-records-failed] sent(c).e != nil && !old(u.Atomic) ==> Dattempt[mkkey(upgradedRelease.Name, upgradedRelease.Version)] == "failed"
 //@   ensures [success-only-if-no-step-failed] sent(c).e == nil ==> KcallFailed == old(KcallFailed)
 //@   ensures [success-marks-deployed-and-superseded] sent(c).e == nil ==> upgradedRelease.Info.Status == "deployed" && originalRelease.Info.Status == "superseded"
+//@   ensures [success-supersedes-the-previous-revision-in-storage] [C01] sent(c).e == nil ==> Dst[mkkey(originalRelease.Name, originalRelease.Version)] == "superseded"
 
-// renderResources (template rendering, post-renderers, manifest sorting) is not under contract; the one
-// fact its callers need here is that the hook list it returns has no nil entry (manifestFile.sort only
-// appends &release.Hook{...} literals). Trusted.
 // sortedKeys: the keys of the rendered-files map in ascending order (what makes the notes text and the
 // parse-error dump a function of the map, not of its iteration order — C05)
 //@ func sortedKeys
